@@ -162,6 +162,7 @@ def gen(rng):
         spec["dis_v"][0] = False
     if all(spec["dis_t"]):
         spec["dis_t"][0] = False
+    spec["check_limits"] = rng.random() < 0.7      # False: the merit function itself does not police the limits
     spec["phase2"] = rng.random() < 0.6
     spec["phase2_frac"] = [rng.uniform(0.2, 0.8) for _ in range(spec["n"])]
     return spec
